@@ -38,16 +38,21 @@ def split_unquoted_newlines(stmt):
 
     Unlike str.splitlines(), this will ignore CR/LF/CR+LF if the requisite
     character is inside of a string."""
-    text = str(stmt)
-    lines = SPLIT_REGEX.split(text)
+    if hasattr(stmt, 'flatten'):
+        # Look at one token at a time: a quote character inside a comment
+        # or a backtick name must not pair with the quote of a later literal.
+        texts = (token.value for token in stmt.flatten())
+    else:
+        texts = (str(stmt),)
     outputlines = ['']
-    for line in lines:
-        if not line:
-            continue
-        elif LINE_MATCH.match(line):
-            outputlines.append('')
-        else:
-            outputlines[-1] += line
+    for text in texts:
+        for line in SPLIT_REGEX.split(text):
+            if not line:
+                continue
+            elif LINE_MATCH.match(line):
+                outputlines.append('')
+            else:
+                outputlines[-1] += line
     return outputlines
 
 
